@@ -2,8 +2,8 @@
 package eng
 
 import (
-	"go/token"
 	"fmt"
+	"go/token"
 	"go/types"
 
 	"golang.org/x/tools/go/ssa"
@@ -17,8 +17,10 @@ import (
 // infeasible under the stated configuration).
 type Opt struct {
 	Start ssa.Instruction
-	Cuts  []ir.Edge
-	Fact  string
+	// StartBlock: begin at the first instruction of this block (e.g. a loop body)
+	StartBlock *ssa.BasicBlock
+	Cuts       []ir.Edge
+	Fact       string
 }
 
 func (o *Opt) start() ssa.Instruction {
@@ -27,6 +29,13 @@ func (o *Opt) start() ssa.Instruction {
 	}
 	return o.Start
 }
+func (o *Opt) run(r *ir.Reach) *ir.Reach {
+	if o != nil && o.StartBlock != nil {
+		return r.RunFromBlock(o.StartBlock)
+	}
+	return r.Run(o.start())
+}
+
 func (o *Opt) cuts() []ir.Edge {
 	if o == nil {
 		return nil
@@ -54,7 +63,7 @@ func Dominates(c *core.Ctx, rule string, fn *ssa.Function, g NamedGuard, sinks [
 		return false
 	}
 	pass := ir.PassEdges(fn, g.G)
-	r := ir.NewReach(fn).CutEdges(pass).CutEdges(opt.cuts()).Run(opt.start())
+	r := opt.run(ir.NewReach(fn).CutEdges(pass).CutEdges(opt.cuts()))
 	for _, s := range sinks {
 		if s.BoolVal != nil {
 			// `return <cond>`: returning want is equivalent to the guard passing
@@ -102,7 +111,7 @@ func MustPassCall(c *core.Ctx, rule string, fn *ssa.Function, callDesc string, p
 		r.Barrier[call] = true
 		n++
 	}
-	r.Run(opt.start())
+	opt.run(r)
 	for _, s := range sinks {
 		if r.SinkReachable(s) {
 			c.Violate(rule, fn, construct, c.P.Rel(s.Instr.Pos()),
